@@ -7,9 +7,14 @@ operations `f` of the method layer (`f : Vec S → Except Err (Res S B)`, resp. 
 1. layouts: `map` (an operation on one array) and `zipWith` (two broadcast arrays) preserve list structure, nesting and
    missing-value positions (`shape`), `map` is a functor, selection commutes with `map`;
 2. the DOCUMENTED field rule (`carry`, `unaryOp`, `binaryOp`, `arrayUnary`, `arrayBinary`);
-3. the REAL `_wrap_result` branches with their literal exclusion tuples (`Branch`, `realWrap`): what they guarantee
-   for every input, where they coincide with the documented rule (records as `vector.Array`/`vector.zip` build them),
-   and where they do not (concrete witnesses, replayed on the real code: `c18_real_deviation_*`).
+3. the REAL (repaired) `_wrap_result` branches with their literal exclusion tuples (`Branch`, `realWrap`): every tuple
+   excludes `px`, `py` (`c18_real_px_py_excluded`), the longest one is exactly the coordinate spellings
+   (`c18_real_exclAll_eq_coords`); HYPOTHESIS-FREE, for every field list: the three full branches carry exactly the
+   documented fields (`c18_real_carried_eq_carry`), the two pass-through branches the documented fields plus stored
+   longitudinal/temporal spellings only (`c18_real_carried_az`, `c18_real_carried_azLon`, `c18_real_carried_no_az`),
+   the class is the class of `self` (`c18_real_dim_passthrough`); full agreement with the documented rule on records
+   as `vector.Array`/`vector.zip` build them (`c18_real_agrees`); concrete witnesses on raw records, replayed on the
+   real code (`c18_real_raw_*`), and the one remaining deviation, field ORDER (`c18_real_deviation_order`).
 -/
 import VectorModel.Glue.Awkward
 
@@ -435,8 +440,9 @@ theorem c18_real_carried_sublist (b : Branch) (n : Nat) (fs : List (String × S)
 theorem c18_real_binary_none (b : Branch) (fs : List (String × S)) : b.carried 2 fs = [] := by
   simp [Branch.carried]
 
-theorem c18_real_binary_fields (parts : List RP) (fs : List (String × S)) (raw : List S) (d : Nat)
-    (out : List (String × S)) (h : realWrap parts 2 fs raw = .ok (d, out)) :
+/-- a binary result has the declared coordinates only, whatever the class and the fields of the handler -/
+theorem c18_real_binary_fields (parts : List RP) (sd : Nat) (fs : List (String × S)) (raw : List S) (d : Nat)
+    (out : List (String × S)) (h : realWrap parts 2 sd fs raw = .ok (d, out)) :
     out = (resultNames parts).zip raw := by
   unfold realWrap at h
   split at h
@@ -456,20 +462,111 @@ theorem c18_real_no_clash (parts : List RP) (b : Branch) (h : Branch.ofParts par
   · rename_i a l; cases a <;> cases l <;> decide
   · rename_i a l t; cases a <;> cases l <;> cases t <;> decide
 
-/-- DEVIATION 1: no branch excludes the momentum spellings `px`, `py` … -/
-theorem c18_real_px_py_not_excluded (b : Branch) : "px" ∉ b.excl ∧ "py" ∉ b.excl := by
+/-- every branch excludes the momentum spellings `px`, `py` (they come right after `"x", "y"` in all five literal
+tuples) … -/
+theorem c18_real_px_py_excluded (b : Branch) : "px" ∈ b.excl ∧ "py" ∈ b.excl := by
   cases b <;> decide
 
-/-- … they are the only coordinate names the longest tuple misses; the `[Azimuthal]` tuple misses 14 and the
-`[Azimuthal, Longitudinal]` tuple misses 10 (deliberately: that is how stored `z`/`t`… pass through, but the
-momentum spellings `pz`, `E`, `M`… pass through as well without being counted for the dimension) -/
+/-- … so the longest tuple is EXACTLY the 19 coordinate spellings … -/
+theorem c18_real_exclAll_eq_coords : ∀ n, n ∈ exclAll ↔ n ∈ coordFieldNames := by
+  intro n
+  simp only [exclAll, coordFieldNames, List.mem_cons, List.not_mem_nil, or_false]
+  constructor <;> intro h <;> rcases h with h | h | h | h | h | h | h | h | h | h | h | h | h | h | h | h | h | h | h <;>
+    simp [h]
+
+/-- … and what the two pass-through tuples leave out of the coordinate names are longitudinal / temporal spellings
+only (deliberately: that is how stored `z`/`t`… pass through; the class of the result is the class of `self`) -/
 theorem c18_real_missing :
-    coordFieldNames.filter (fun n => !exclAll.contains n) = ["px", "py"] ∧
+    coordFieldNames.filter (fun n => !exclAll.contains n) = [] ∧
     coordFieldNames.filter (fun n => !exclAzLon.contains n) =
-      ["px", "py", "t", "E", "e", "energy", "tau", "M", "m", "mass"] ∧
+      ["t", "E", "e", "energy", "tau", "M", "m", "mass"] ∧
     coordFieldNames.filter (fun n => !exclAz.contains n) =
-      ["px", "py", "z", "pz", "theta", "eta", "t", "E", "e", "energy", "tau", "M", "m", "mass"] := by
+      ["z", "pz", "theta", "eta", "t", "E", "e", "energy", "tau", "M", "m", "mass"] := by
   decide
+
+/-! ### hypothesis-free: every field list (raw momentum spellings, any order, duplicates) -/
+
+/-- the three full branches (`[Azimuthal, None]`, `[Azimuthal, Longitudinal, None]`,
+`[Azimuthal, Longitudinal, Temporal]`) carry EXACTLY the documented fields, for every field list -/
+theorem c18_real_carried_eq_carry (b : Branch) (hb : b.excl = exclAll) (fs : List (String × S)) :
+    b.carried 1 fs = carry fs := by
+  simp only [Branch.carried, BEq.rfl, if_true, carry, hb]
+  apply List.filter_congr
+  intro f _
+  have := c18_real_exclAll_eq_coords f.1
+  by_cases hc : f.1 ∈ coordFieldNames
+  · simp [hc, this.2 hc]
+  · have hn : f.1 ∉ exclAll := fun hh => hc (this.1 hh)
+    simp [hc, hn]
+
+/-- the hypothesis of `c18_real_carried_eq_carry` holds for exactly these three branches -/
+theorem c18_real_full_branches (b : Branch) : b.excl = exclAll ↔ b = .azNone ∨ b = .azLonNone ∨ b = .azLonTmp := by
+  cases b <;> decide
+
+private theorem coord_not_exclAz (n : String) (hc : n ∈ coordFieldNames) (hn : n ∉ exclAz) :
+    n ∈ ["z", "pz", "theta", "eta", "t", "E", "e", "energy", "tau", "M", "m", "mass"] := by
+  simp only [coordFieldNames, List.mem_cons, List.not_mem_nil, or_false] at hc
+  rcases hc with h | h | h | h | h | h | h | h | h | h | h | h | h | h | h | h | h | h | h <;> subst h <;>
+    revert hn <;> decide
+
+private theorem coord_not_exclAzLon (n : String) (hc : n ∈ coordFieldNames) (hn : n ∉ exclAzLon) :
+    n ∈ ["t", "E", "e", "energy", "tau", "M", "m", "mass"] := by
+  simp only [coordFieldNames, List.mem_cons, List.not_mem_nil, or_false] at hc
+  rcases hc with h | h | h | h | h | h | h | h | h | h | h | h | h | h | h | h | h | h | h <;> subst h <;>
+    revert hn <;> decide
+
+private theorem carried_extra_coord (b : Branch) (fs : List (String × S)) (f : String × S)
+    (hf : f ∈ b.carried 1 fs) (hn : f ∉ carry fs) : f.1 ∈ coordFieldNames ∧ f.1 ∉ b.excl := by
+  simp only [Branch.carried, BEq.rfl, if_true, List.mem_filter] at hf
+  refine ⟨?_, by simpa using hf.2⟩
+  by_cases hc : f.1 ∈ coordFieldNames
+  · exact hc
+  · exact absurd ((c18_carry_mem_iff fs f).2 ⟨hf.1, hc⟩) hn
+
+/-- branch `[Azimuthal]`, for every field list: the non-coordinate fields among what it carries are exactly the
+documented ones, and everything else it carries has a longitudinal or temporal spelling (the stored coordinates that
+pass through) — never an azimuthal one -/
+theorem c18_real_carried_az (fs : List (String × S)) :
+    carry (Branch.az.carried 1 fs) = carry fs ∧
+    ∀ f ∈ Branch.az.carried 1 fs, f ∉ carry fs →
+      f.1 ∈ ["z", "pz", "theta", "eta", "t", "E", "e", "energy", "tau", "M", "m", "mass"] := by
+  refine ⟨c18_real_carried_noncoord .az fs, fun f hf hn => ?_⟩
+  obtain ⟨hc, he⟩ := carried_extra_coord .az fs f hf hn
+  exact coord_not_exclAz f.1 hc he
+
+/-- branch `[Azimuthal, Longitudinal]`, for every field list: as above with the temporal spellings only -/
+theorem c18_real_carried_azLon (fs : List (String × S)) :
+    carry (Branch.azLon.carried 1 fs) = carry fs ∧
+    ∀ f ∈ Branch.azLon.carried 1 fs, f ∉ carry fs →
+      f.1 ∈ ["t", "E", "e", "energy", "tau", "M", "m", "mass"] := by
+  refine ⟨c18_real_carried_noncoord .azLon fs, fun f hf hn => ?_⟩
+  obtain ⟨hc, he⟩ := carried_extra_coord .azLon fs f hf hn
+  exact coord_not_exclAzLon f.1 hc he
+
+/-- no branch ever carries a field with an azimuthal spelling, for every field list and every `num_vecargs` -/
+theorem c18_real_carried_no_az (b : Branch) (n : Nat) (fs : List (String × S)) :
+    ∀ f ∈ b.carried n fs, f.1 ∉ ["x", "px", "y", "py", "rho", "pt", "phi"] := by
+  intro f hf hm
+  unfold Branch.carried at hf
+  split at hf
+  · simp only [List.mem_filter] at hf
+    have h2 : f.1 ∉ b.excl := by simpa using hf.2
+    apply h2
+    simp only [List.mem_cons, List.not_mem_nil, or_false] at hm
+    rcases hm with h | h | h | h | h | h | h <;> rw [h] <;> cases b <;> decide
+  · simp at hf
+
+/-- the class of the result in the pass-through branches is the class of `self` -/
+theorem c18_real_dim_passthrough (d : Nat) (hd : d = 2 ∨ d = 3 ∨ d = 4) :
+    Branch.az.dim d = d ∧ (d = 3 ∨ d = 4 → Branch.azLon.dim d = d) := by
+  rcases hd with rfl | rfl | rfl <;> decide
+
+/-- the other three branches fix the class -/
+theorem c18_real_dim_fixed (d : Nat) :
+    Branch.azNone.dim d = 2 ∧ Branch.azLonNone.dim d = 3 ∧ Branch.azLonTmp.dim d = 4 := ⟨rfl, rfl, rfl⟩
+
+example : Branch.az.carried 1 [("E", (4 : Int)), ("px", 1), ("charge", 5), ("py", 2), ("px", 7), ("pz", 3)] =
+    [("E", 4), ("charge", 5), ("pz", 3)] := by decide
 
 /-! ### agreement with the documented rule on records as the constructors build them -/
 
@@ -528,8 +625,8 @@ private theorem tmp_names_exclAll (t : Option Tmp) : ∀ n ∈ tmpNames t, n ∈
   · simp [tmpNames]
   · cases t <;> decide
 
-/-- with generic names, the literal lookups `"t" in fields or "tau" in fields` (L724, L843) find the temporal
-coordinate … -/
+/-- plain fact (no longer used by the proofs: the repaired code picks the class from `isinstance(self, Vector4D/3D)`):
+with generic names, a literal lookup `"t" in fields or "tau" in fields` finds the temporal coordinate … -/
 theorem c18_real_has_tmp (r : Rec S) (h : RecWF r) :
     ((r.fields.map (·.1)).contains "t" || (r.fields.map (·.1)).contains "tau") = r.v.ty.tmp.isSome := by
   obtain ⟨⟨⟨be0, mom0, az0, lon0, tmp0⟩, c⟩, extra⟩ := r
@@ -549,7 +646,7 @@ theorem c18_real_has_tmp (r : Rec S) (h : RecWF r) :
       simp [Rec.fields, Vec.named, Vec.azEl, Vec.lonEl, Vec.tmpEl, lonNames, tmpNames, Az.names, Lon.str, Tmp.str,
         e1, e2]
 
-/-- … and `"z" in fields or "theta" in fields or "eta" in fields` (L726) the longitudinal one -/
+/-- … and `"z" in fields or "theta" in fields or "eta" in fields` the longitudinal one -/
 theorem c18_real_has_lon (r : Rec S) (h : RecWF r) :
     ((r.fields.map (·.1)).contains "z" || (r.fields.map (·.1)).contains "theta" ||
       (r.fields.map (·.1)).contains "eta") = r.v.ty.lon.isSome := by
@@ -572,23 +669,16 @@ theorem c18_real_has_lon (r : Rec S) (h : RecWF r) :
         e3, e4, e5]
 
 /-- branch `[Azimuthal]` (e.g. `rotateZ`, `scale` on a 2D vector): stored longitudinal/temporal coordinates pass
-through because they are not in the tuple, the class dimension is found from the literal names — together this is
+through because they are not in the tuple, the class dimension is that of the class of `self` — together this is
 `wrapVec` (Core) + `carry` -/
 theorem c18_real_agrees_az (r : Rec S) (h : RecWF r) (a : Az) (raw : List S) (be : Backend) (mom : Bool)
     (hraw : raw.length = 2) (v' : Vec S) (hw : wrapVec r.v be mom raw [.az a] = .ok v') :
-    realWrap [.az a] 1 r.fields raw = .ok (v'.ty.dim, (Rec.mk v' (carry r.extra)).fields) := by
-  have hd : Branch.dim .az (r.fields.map (·.1)) = v'.ty.dim := by
-    simp only [Branch.dim, c18_real_has_tmp r h, c18_real_has_lon r h]
-    simp only [wrapVec, Except.ok.injEq] at hw
-    subst hw
-    have := h.1
-    revert this
-    cases r.v.ty.lon <;> cases r.v.ty.tmp <;> simp [VT.dim]
+    realWrap [.az a] 1 r.v.ty.dim r.fields raw = .ok (v'.ty.dim, (Rec.mk v' (carry r.extra)).fields) := by
   obtain ⟨⟨⟨be0, mom0, az0, lon0, tmp0⟩, c⟩, extra⟩ := r
   obtain ⟨hwf, hlen, hex⟩ := h
   replace hex : ∀ f ∈ extra, f.1 ∉ coordFieldNames := hex
   obtain ⟨r0, r1, rfl⟩ := len2 hraw
-  simp only [realWrap, Branch.ofParts, hd]
+  simp only [realWrap, Branch.ofParts]
   simp only [wrapVec, Except.ok.injEq] at hw
   subst hw
   simp only [Rec.fields, c18_carry_eq_self hex, carried_append_extra _ _ _ hex]
@@ -597,15 +687,15 @@ theorem c18_real_agrees_az (r : Rec S) (h : RecWF r) (a : Az) (raw : List S) (be
   · obtain ⟨c0, c1, rfl⟩ := len2 hlen
     cases a <;>
       simp [Vec.azEl, Vec.lonEl, Vec.tmpEl, lonNames, tmpNames, Az.names, resultNames, RP.names,
-        Branch.carried, Branch.excl, exclAz]
+        Branch.carried, Branch.excl, exclAz, Branch.dim, VT.dim]
   · obtain ⟨c0, c1, c2, rfl⟩ := len3 hlen
     cases a <;> cases l0 <;>
       simp [Vec.azEl, Vec.lonEl, Vec.tmpEl, lonNames, tmpNames, Az.names, Lon.str, resultNames, RP.names,
-        Branch.carried, Branch.excl, exclAz]
+        Branch.carried, Branch.excl, exclAz, Branch.dim, VT.dim]
   · obtain ⟨c0, c1, c2, c3, rfl⟩ := len4 hlen
     cases a <;> cases l0 <;> cases t0 <;>
       simp [Vec.azEl, Vec.lonEl, Vec.tmpEl, lonNames, tmpNames, Az.names, Lon.str, Tmp.str, resultNames, RP.names,
-        Branch.carried, Branch.excl, exclAz]
+        Branch.carried, Branch.excl, exclAz, Branch.dim, VT.dim]
 
 private theorem carried_named_all (b : Branch) (hb : b.excl = exclAll) (v : Vec S) : b.carried 1 v.named = [] := by
   unfold Vec.named
@@ -616,7 +706,7 @@ private theorem carried_named_all (b : Branch) (hb : b.excl = exclAll) (v : Vec 
 /-- branch `[Azimuthal, None]` (e.g. `to_xy`, `to_rhophi`): 2D result + non-coordinate fields -/
 theorem c18_real_agrees_azNone (r : Rec S) (h : RecWF r) (a : Az) (raw : List S) (be : Backend) (mom : Bool)
     (hraw : raw.length = 2) (v' : Vec S) (hw : wrapVec r.v be mom raw [.az a, .none] = .ok v') :
-    realWrap [.az a, .none] 1 r.fields raw = .ok (v'.ty.dim, (Rec.mk v' (carry r.extra)).fields) := by
+    realWrap [.az a, .none] 1 r.v.ty.dim r.fields raw = .ok (v'.ty.dim, (Rec.mk v' (carry r.extra)).fields) := by
   obtain ⟨hwf, hlen, hex⟩ := h
   obtain ⟨r0, r1, rfl⟩ := len2 hraw
   simp only [wrapVec, Except.ok.injEq] at hw
@@ -631,7 +721,7 @@ theorem c18_real_agrees_azNone (r : Rec S) (h : RecWF r) (a : Az) (raw : List S)
 theorem c18_real_agrees_azLonNone (r : Rec S) (h : RecWF r) (a : Az) (l : Lon) (raw : List S) (be : Backend)
     (mom : Bool) (hraw : raw.length = 3) (v' : Vec S)
     (hw : wrapVec r.v be mom raw [.az a, .lon l, .none] = .ok v') :
-    realWrap [.az a, .lon l, .none] 1 r.fields raw = .ok (v'.ty.dim, (Rec.mk v' (carry r.extra)).fields) := by
+    realWrap [.az a, .lon l, .none] 1 r.v.ty.dim r.fields raw = .ok (v'.ty.dim, (Rec.mk v' (carry r.extra)).fields) := by
   obtain ⟨hwf, hlen, hex⟩ := h
   obtain ⟨r0, r1, r2, rfl⟩ := len3 hraw
   simp only [wrapVec, Except.ok.injEq] at hw
@@ -646,7 +736,7 @@ theorem c18_real_agrees_azLonNone (r : Rec S) (h : RecWF r) (a : Az) (l : Lon) (
 theorem c18_real_agrees_azLonTmp (r : Rec S) (h : RecWF r) (a : Az) (l : Lon) (t : Tmp) (raw : List S)
     (be : Backend) (mom : Bool) (hraw : raw.length = 4) (v' : Vec S)
     (hw : wrapVec r.v be mom raw [.az a, .lon l, .tmp t] = .ok v') :
-    realWrap [.az a, .lon l, .tmp t] 1 r.fields raw = .ok (v'.ty.dim, (Rec.mk v' (carry r.extra)).fields) := by
+    realWrap [.az a, .lon l, .tmp t] 1 r.v.ty.dim r.fields raw = .ok (v'.ty.dim, (Rec.mk v' (carry r.extra)).fields) := by
   obtain ⟨hwf, hlen, hex⟩ := h
   obtain ⟨r0, r1, r2, r3, rfl⟩ := len4 hraw
   simp only [wrapVec, Except.ok.injEq] at hw
@@ -658,16 +748,15 @@ theorem c18_real_agrees_azLonTmp (r : Rec S) (h : RecWF r) (a : Az) (l : Lon) (t
       RP.names, Branch.dim, VT.dim]
 
 /-- branch `[Azimuthal, Longitudinal]` (e.g. `rotateX`, `rotate_axis`, 3D `scale`): a stored temporal coordinate
-passes through, the class is 4D iff a literal `t`/`tau` field is present -/
+passes through, the class is 4D iff `self` is a `Vector4D` -/
 theorem c18_real_agrees_azLon (r : Rec S) (h : RecWF r) (a : Az) (l : Lon) (raw : List S) (be : Backend)
     (mom : Bool) (hraw : raw.length = 3) (v' : Vec S) (hw : wrapVec r.v be mom raw [.az a, .lon l] = .ok v') :
-    realWrap [.az a, .lon l] 1 r.fields raw = .ok (v'.ty.dim, (Rec.mk v' (carry r.extra)).fields) := by
-  have htmp := c18_real_has_tmp r h
+    realWrap [.az a, .lon l] 1 r.v.ty.dim r.fields raw = .ok (v'.ty.dim, (Rec.mk v' (carry r.extra)).fields) := by
   obtain ⟨⟨⟨be0, mom0, az0, lon0, tmp0⟩, c⟩, extra⟩ := r
   obtain ⟨hwf, hlen, hex⟩ := h
   replace hex : ∀ f ∈ extra, f.1 ∉ coordFieldNames := hex
   obtain ⟨r0, r1, r2, rfl⟩ := len3 hraw
-  simp only [realWrap, Branch.ofParts, Branch.dim, htmp]
+  simp only [realWrap, Branch.ofParts, Branch.dim]
   simp only [Rec.fields, c18_carry_eq_self hex, carried_append_extra _ _ _ hex]
   simp only [Vec.named, List.append_assoc, carried_drop _ _ _ _ (az_names_excl _ _),
     carried_drop .azLon _ _ _ (lon_names_exclAzLon _)]
@@ -696,7 +785,7 @@ class dimension and exactly the fields of the documented rule — the coordinate
 `Glue/Core`) assigns, followed by the operand's other fields in order -/
 theorem c18_real_agrees (r : Rec S) (h : RecWF r) (parts : List RP) (raw : List S) (be : Backend) (mom : Bool)
     (hraw : raw.length = (resultNames parts).length) (v' : Vec S) (hw : wrapVec r.v be mom raw parts = .ok v') :
-    realWrap parts 1 r.fields raw = .ok (v'.ty.dim, (Rec.mk v' (carry r.extra)).fields) := by
+    realWrap parts 1 r.v.ty.dim r.fields raw = .ok (v'.ty.dim, (Rec.mk v' (carry r.extra)).fields) := by
   unfold wrapVec at hw
   split at hw
   · rename_i a
@@ -720,62 +809,68 @@ theorem c18_real_agrees (r : Rec S) (h : RecWF r) (parts : List RP) (raw : List 
 example :
     let r : Rec Int := ⟨⟨{ mom := false, az := .xy, lon := some .z, tmp := some .t, be := .ak }, [1, 2, 3, 4]⟩,
       [("charge", -1)]⟩
-    RecWF r ∧ realWrap [.az .xy] 1 r.fields [10, 20] =
+    RecWF r ∧ realWrap [.az .xy] 1 r.v.ty.dim r.fields [10, 20] =
       .ok (4, [("x", 10), ("y", 20), ("z", 3), ("t", 4), ("charge", -1)]) := by
   refine ⟨⟨by decide, by decide, by decide⟩, by rfl⟩
 
-/-! ### where the real branches deviate from the documented rule (witnesses; replayed on the real code) -/
+/-! ### raw records (not built by `vector.Array`/`vector.zip`): what the repaired code returns (witnesses; replayed on
+the real code).  In the pinned tree these were the deviations `c18_real_deviation_rotateZ/_rotateX/_px_py/_mass`. -/
 
 /-- raw momentum-spelled fields (`ak.zip({"px","py","pz","E","charge"}, with_name="Momentum4D")` with registered
-behaviors).  `rotateZ` (branch `[Azimuthal]`): the real code returns a 2D class with fields
-`x, y, px, py, pz, E, charge` — the stale `px`, `py` are kept next to the new `x`, `y`, and `pz`, `E` pass through
-without making the result 3D/4D.  Documented rule: coordinates + `charge`. -/
-theorem c18_real_deviation_rotateZ :
+behaviors, so `self` is a `Vector4D`).  `rotateZ` (branch `[Azimuthal]`): the stale `px`, `py` are dropped, the stored
+`pz`, `E` pass through under their own spelling, the class stays 4D.  Same non-coordinate fields as the documented
+rule. -/
+theorem c18_real_raw_rotateZ :
     let self : List (String × Int) := [("px", 1), ("py", 2), ("pz", 3), ("E", 4), ("charge", 5)]
-    realWrap [.az .xy] 1 self [10, 20] =
-      .ok (2, [("x", 10), ("y", 20), ("px", 1), ("py", 2), ("pz", 3), ("E", 4), ("charge", 5)])
+    realWrap [.az .xy] 1 4 self [10, 20] =
+      .ok (4, [("x", 10), ("y", 20), ("pz", 3), ("E", 4), ("charge", 5)])
     ∧ carry self = [("charge", 5)] := by
   intro self
   exact ⟨by rfl, by decide⟩
 
-/-- same array, `rotateX` (branch `[Azimuthal, Longitudinal]`): a 3D class with `x, y, z, px, py, E, charge` -/
-theorem c18_real_deviation_rotateX :
+/-- same array, `rotateX` (branch `[Azimuthal, Longitudinal]`): `x, y, z, E, charge`, 4D -/
+theorem c18_real_raw_rotateX :
     let self : List (String × Int) := [("px", 1), ("py", 2), ("pz", 3), ("E", 4), ("charge", 5)]
-    realWrap [.az .xy, .lon .z] 1 self [10, 20, 30] =
-      .ok (3, [("x", 10), ("y", 20), ("z", 30), ("px", 1), ("py", 2), ("E", 4), ("charge", 5)]) := by
+    realWrap [.az .xy, .lon .z] 1 4 self [10, 20, 30] =
+      .ok (4, [("x", 10), ("y", 20), ("z", 30), ("E", 4), ("charge", 5)]) := by
   intro self
   rfl
 
-/-- same array, the three branches with the 17-name tuple (`to_xy`, `to_xyz`, `boostX`/`to_xyzt`): `px`, `py` survive
-as "extra" fields -/
-theorem c18_real_deviation_px_py (b : Branch) :
+/-- same array, the three full branches (`to_xy`, `to_xyz`, `boostX`/`to_xyzt`): only `charge` is carried (instance of
+`c18_real_carried_eq_carry`) -/
+theorem c18_real_raw_full (b : Branch) (hb : b.excl = exclAll) :
     let self : List (String × Int) := [("px", 1), ("py", 2), ("pz", 3), ("E", 4), ("charge", 5)]
-    ("px", 1) ∈ b.carried 1 self ∧ ("py", 2) ∈ b.carried 1 self := by
-  cases b <;> decide
+    b.carried 1 self = [("charge", 5)] := by
+  intro self
+  rw [c18_real_carried_eq_carry b hb]
+  decide
 
-/-- `(pt, phi, eta, mass)` + `rotateX`: the stored `mass` passes through but is not recognised as temporal: 3D -/
-theorem c18_real_deviation_mass :
+/-- `(pt, phi, eta, mass)` (a `Vector4D`) + `rotateX`: the stored `mass` passes through and the class stays 4D -/
+theorem c18_real_raw_mass :
     let self : List (String × Int) := [("pt", 1), ("phi", 2), ("eta", 3), ("mass", 4)]
-    realWrap [.az .xy, .lon .z] 1 self [10, 20, 30] =
-      .ok (3, [("x", 10), ("y", 20), ("z", 30), ("mass", 4)]) := by
+    realWrap [.az .xy, .lon .z] 1 4 self [10, 20, 30] =
+      .ok (4, [("x", 10), ("y", 20), ("z", 30), ("mass", 4)]) := by
   intro self
   rfl
+
+/-! ### where the real branches still deviate from the documented rule (witness; replayed on the real code) -/
 
 /-- field ORDER: the pass-through branches keep the operand's order for stored coordinates AND other fields together,
 so with `ak.zip({"x","charge","y","z","t"}, with_name="Vector4D")` the result of `rotateZ` is `x, y, charge, z, t`
 (coordinates not contiguous); `vector.Array`/`vector.zip` put coordinates first and hide this -/
 theorem c18_real_deviation_order :
     let self : List (String × Int) := [("x", 1), ("charge", 5), ("y", 2), ("z", 3), ("t", 4)]
-    realWrap [.az .xy] 1 self [10, 20] =
+    realWrap [.az .xy] 1 4 self [10, 20] =
       .ok (4, [("x", 10), ("y", 20), ("charge", 5), ("z", 3), ("t", 4)]) := by
   intro self
   rfl
 
-/-- a binary operation in the pass-through branches (`num_vecargs = 2`, e.g. planar `add`) still picks the class from
-the literal fields of the handler but writes the declared coordinates only -/
-theorem c18_real_deviation_binary_dim :
+/-- a binary operation in the pass-through branches (`num_vecargs = 2`, e.g. planar `add`): the class is that of the
+handler `self` (here a `Vector2D` that happens to have a stray field named `t`: 2D, no longer 4D), the fields are the
+declared coordinates only -/
+theorem c18_real_binary_dim :
     let self : List (String × Int) := [("x", 1), ("y", 2), ("t", 4)]
-    realWrap [.az .xy] 2 self [10, 20] = .ok (4, [("x", 10), ("y", 20)]) := by
+    realWrap [.az .xy] 2 2 self [10, 20] = .ok (2, [("x", 10), ("y", 20)]) := by
   intro self
   rfl
 
